@@ -82,7 +82,12 @@ class Path:
 
     def _check(self, extra, timeout_ms):
         self._sync()
-        self.solver.set("timeout", timeout_ms)
+        # The outcome of these auxiliary queries shapes the formulas built afterwards (a term
+        # is simplified only if a side condition is provable), so it must not depend on how
+        # busy the machine is: the budget is z3's deterministic resource counter (about 1500
+        # units per nominal millisecond), with a generous wall-clock backstop.
+        self.solver.set("rlimit", int(timeout_ms) * 1500)
+        self.solver.set("timeout", int(timeout_ms) * 6)
         t0 = time.time()
         self.solver.push()
         try:
@@ -239,7 +244,9 @@ class Path:
         # fresh (non-incremental) solver: z3's incremental core is markedly weaker on
         # quantified + nonlinear queries (observed: unknown vs unsat in 1 s)
         s1 = z3.Solver()
-        s1.set("timeout", self.prove_timeout_ms if not aux else min(self.prove_timeout_ms, 5000))
+        _t1 = self.prove_timeout_ms if not aux else min(self.prove_timeout_ms, 5000)
+        s1.set("rlimit", int(_t1) * 1500)
+        s1.set("timeout", int(_t1) * 6)
         for a in self.solver.assertions():
             s1.add(a)
         s1.add(neg)
@@ -253,7 +260,8 @@ class Path:
             s2 = s1
         if r != z3.unsat and aux:
             s2 = z3.Solver()
-            s2.set("timeout", self.prove_timeout_ms)
+            s2.set("rlimit", int(self.prove_timeout_ms) * 1500)
+            s2.set("timeout", int(self.prove_timeout_ms) * 6)
             for a in self.solver.assertions():
                 s2.add(a)
             for a in aux:
